@@ -6,8 +6,9 @@
   * A file's content is the list of documents it decodes to (already normalised), or a
     decoding error: the three codecs are outside this module (see Bkl.Decode / Bkl.Stream).
   * `os.Root` is modelled as a component-wise walk that refuses `..` above the root, absolute
-    symlink targets and relative symlinks that leave the root.  The probes
-    (`os.Stat`, `filepath.Glob`, `filepath.EvalSymlinks`) see the whole file system.
+    symlink targets and relative symlinks that leave the root.  The probes for parent files
+    (`Parser.stat`, `Parser.globFiles`) go through the same walk; `FileMatch` (the command
+    line argument itself) and `filepath.EvalSymlinks` see the whole file system.
   * Go's `findFile` ranges over the format table in hash order; the model takes the table in
     sorted order.  The two agree whenever a layer name is provided by at most one file
     (`Unambiguous`), which is the property's hypothesis.
@@ -137,9 +138,45 @@ def FS.rootOpenDir (fs : FS) (root : Comps) (rel : List String) : R Comps := do
   | some .dir => pure real
   | _ => throw Err.other
 
-/-- filepath.go:findFile — the first supported extension for which `layer.ext` exists -/
+/-- filepath.go:findFile with os.Stat (FileMatch) — the first supported extension for which
+    `layer.ext` exists -/
 def FS.findFile (fs : FS) (dir : Comps) (layer : String) : Option Comps :=
   (supportedExts.map fun e => dir ++ [layer ++ "." ++ e]).find? fs.exists
+
+/-- what `p.root.Stat(rel)` says: a node, `ErrNotExist`, or any other error (a path that leaves
+    the root, an absolute link, too many links) -/
+inductive Probe where
+  | found (real : Comps)
+  | missing
+  | refused
+  deriving Inhabited, DecidableEq
+
+/-- the os.Root walk again, keeping "does not exist" apart from "refused" -/
+def FS.rootProbe (fs : FS) (root : Comps) (fuel : Nat) (cur : Comps) (todo : List String) : Probe :=
+  match fuel with
+  | 0 => .refused
+  | fuel + 1 =>
+    match todo with
+    | [] => .found cur
+    | c :: rest =>
+      if c == "." || c == "" then fs.rootProbe root fuel cur rest
+      else if c == ".." then
+        if cur.length ≤ root.length then .refused
+        else fs.rootProbe root fuel cur.dropLast rest
+      else
+        let next := cur ++ [c]
+        match fs.lstat next with
+        | none => .missing
+        | some (.link t) =>
+          if isAbsPath t then .refused
+          else fs.rootProbe root fuel cur (splitPath t ++ rest)
+        | some _ => fs.rootProbe root fuel next rest
+
+/-- parser.go:stat — `errors.Is(err, os.ErrNotExist)` is the only answer findFile skips -/
+def FS.rootExists (fs : FS) (root : Comps) (rel : List String) : Bool :=
+  match fs.rootProbe root linkFuel root rel with
+  | .missing => false
+  | _ => true
 
 /-- one-component glob match with `*` and `?` (no classes) -/
 def globMatch : List Char → List Char → Nat → Bool
@@ -153,19 +190,40 @@ def globMatch : List Char → List Char → Nat → Bool
 
 def countDots (s : String) : Nat := (s.toList.filter (· == '.')).length
 
-/-- filepath.go:globFiles for a pattern whose wildcards are in the last component:
-    entries of the (resolved) directory matching `base.*`, same number of dots, supported
-    extension, in lexical order (filepath.Glob sorts) -/
-def FS.globFiles (fs : FS) (dir : Comps) (base : String) : List Comps :=
-  match fs.evalSymlinks dir with
-  | none => []
-  | some rdir =>
-    let pat := base ++ ".*"
-    let names := (fs.entries.filter (fun e => e.1.dropLast == rdir && !e.1.isEmpty)).map (fun e => baseOf e.1)
-    let ms := names.filter fun n =>
-      globMatch pat.toList n.toList (pat.length + n.length + 1) && countDots n == countDots pat
-        && supportedExts.contains (extOf n)
-    (ms.toArray.qsort (· < ·)).toList.map fun n => dir ++ [n]
+def hasMeta (s : String) : Bool := s.toList.any fun c => c == '*' || c == '?' || c == '[' || c == '\\'
+
+/-- `fs.ReadDir(root.FS(), rel)`: the names in a directory inside the root, sorted; nothing when
+    the walk is refused or does not end at a directory (fs.Glob ignores I/O errors) -/
+def FS.rootReadDir (fs : FS) (root : Comps) (rel : List String) : List String :=
+  match fs.rootWalk root linkFuel root rel with
+  | .error _ => []
+  | .ok real =>
+    match fs.lstat real with
+    | some .dir =>
+      let names := (fs.entries.filter (fun e => e.1.dropLast == real && !e.1.isEmpty)).map (fun e => baseOf e.1)
+      (names.toArray.qsort (· < ·)).toList
+    | _ => []
+
+/-- io/fs.Glob over the root's file system, pattern given as REVERSED root-relative components
+    (last component first): the directory part is expanded first when it holds a wildcard,
+    then each directory is listed and its names matched against the last component. -/
+def FS.globRev (fs : FS) (root : Comps) : List String → List (List String)
+  | [] => [[]]
+  | file :: dirRev =>
+    let dirs := if dirRev.any hasMeta then fs.globRev root dirRev else [dirRev.reverse]
+    dirs.flatMap fun d =>
+      ((fs.rootReadDir root d).filter fun n =>
+        globMatch file.toList n.toList (file.length + n.length + 1)).map fun n => d ++ [n]
+
+/-- filepath.go:Parser.globFiles — `target.*` expanded beneath the root: same number of dots
+    as the pattern, supported extension; a pattern that leaves the root matches nothing -/
+def FS.globFiles (fs : FS) (root : Comps) (target : Comps) : List Comps :=
+  let pat := relTo root (dirOf target ++ [baseOf target ++ ".*"])
+  if pat.any (· == "..") then []
+  else
+    let patDots := (pat.map countDots).sum
+    ((fs.globRev root pat.reverse).filter fun m =>
+      (m.map countDots).sum == patDots && supportedExts.contains (extOf (m.getLastD ""))).map (root ++ ·)
 
 /-! ## loading a file and its parents (file.go) -/
 
@@ -214,7 +272,7 @@ def loadFile (fs : FS) (cfg : RootCfg) (path : Comps) (fileId : String) : R (Lis
   fs.rootOpen cfg.root (relTo cfg.root path)
 
 /-- file.go:parents — directive, else symlink, else filename -/
-def fileParents (fs : FS) (path : Comps) (docs : List Val) : R (List Comps) := do
+def fileParents (fs : FS) (cfg : RootCfg) (path : Comps) (docs : List Val) : R (List Comps) := do
   let dirs ← docs.mapM parentDirective
   let names := dirs.flatMap fun d => match d with | .names ns => ns | _ => []
   let noParent := dirs.any fun d => match d with | .noParent => true | _ => false
@@ -224,7 +282,8 @@ def fileParents (fs : FS) (path : Comps) (docs : List Val) : R (List Comps) := d
     else if parts.length == 2 then pure []
     else
       let layer := ".".intercalate (parts.take (parts.length - 2))
-      match fs.findFile (dirOf p) layer with
+      match (supportedExts.map fun e => dirOf p ++ [layer ++ "." ++ e]).find?
+          (fun c => fs.rootExists cfg.root (relTo cfg.root c)) with
       | some f => pure [f]
       | none => throw Err.missingFile
   if noParent then
@@ -233,7 +292,7 @@ def fileParents (fs : FS) (path : Comps) (docs : List Val) : R (List Comps) := d
     names.foldlM (init := []) fun acc n => do
       -- filepath.Join(filepath.Dir(f.path), n): a leading "/" in n does not make it absolute
       let target := cleanComps (dirOf path ++ splitPath n)
-      let ms := fs.globFiles (dirOf target) (baseOf target)
+      let ms := fs.globFiles cfg.root target
       if ms.isEmpty then throw Err.missingFile else pure (acc ++ ms)
   else
     match fs.evalSymlinks path with
@@ -253,7 +312,7 @@ def loadFileAndParents (fs : FS) (cfg : RootCfg) (fuel : Nat) (path : Comps) (ch
       | none => pathStr path
     let raw ← loadFile fs cfg path fid
     let docIds := (List.range raw.length).map fun i => fid ++ "|doc" ++ toString i
-    let parents ← fileParents fs path raw
+    let parents ← fileParents fs cfg path raw
     let docs := raw.map stripParent
     let mut files : List LFile := []
     for p in parents do
